@@ -165,8 +165,8 @@ def run_check(pid: str, tier: str, seed: int, jobs: int, replay: str | None = No
             if have < need:
                 inconclusive.append(f"monitor counter {k}={have} below minimum {need}")
         if agg["lost"]:
-            # a lost worker is never a verdict; a few are tolerated only if the minima are still met
-            if len(agg["lost"]) > max(1, agg["batches"] // 10):
+            # a lost worker is never a verdict - and never ignored: what it would have observed is unknown
+            if len(agg["lost"]) > 0:
                 inconclusive.append(f"{len(agg['lost'])} of {agg['batches']} workers lost: {agg['lost'][0][:120]} ... {agg['lost'][0][-1200:]}")
 
     # ---- evidence
